@@ -1026,6 +1026,13 @@ impl<'de> serde::de::Visitor<'de> for ParsedValueSeed<'_> {
     where
         E: serde::de::Error,
     {
+        if self.in_range {
+            // an explicit default is only meaningful for a whole key
+            return Err(serde::de::Error::invalid_type(
+                serde::de::Unexpected::Unit,
+                &"a value for the range",
+            ));
+        }
         Ok(ParsedValue::Default)
     }
 
